@@ -51,6 +51,8 @@ def replay(run, path):
         cases = _drive_one(run, 'harness.drivers.d_map', {'a': case['a'], 'rests': case['rests'], 'cfgs': [case['cfg']]}, [])
     elif kind == 'judge' and op == 'transpose':
         cases = _drive_one(run, 'harness.drivers.d_transpose', {'a': case['a'], 'b': case['b'], 'cfgs': [case['cfg']]}, [])
+    elif kind == 'judge' and op == 'itertrace':
+        cases = _drive_one(run, 'harness.drivers.d_iter', {'shape': case['shape'], 'calls': case['calls']}, [])
     elif kind == 'judge' and op == 'heap':
         cases = _drive_one(run, 'harness.drivers.d_heap', {'tid': 1, 'hist': case['hist']}, [])
     elif kind == 'judge' and op in ('onelevel', 'sortkeys'):
